@@ -1,4 +1,488 @@
-import AY.Spec.Plain
+/-
+  C08 — "!notnew (and command-line overrides) can change but never create paths".
+
+  Statement (properties.jsonl): Merging content below a !notnew node succeeds only if every path it
+  writes already exists in the config built so far, so that afterwards no path exists that did not
+  exist before; otherwise MergeError naming a missing path (a nested !new re-allows creation below
+  it). A command-line override 'a.b[i].c=value' sets exactly that path to the value and changes
+  nothing else; a mistyped path is an error.
+
+  The theorems are about the existing definitions of AY.Model.Merge (`reqNew` = `_require_all_new`,
+  `mergeStep`/`mergeLoop` = the key loop of `ComposedNode.on_merge_impl`, `mergeF`/`merge`) and
+  AY.Model.Construct (`construct`).  They come in four groups:
+    1. `_require_all_new` reports exactly the first node (DFS pre-order) whose `allow_new` is off
+       and whose path is not excepted  (ALL nodes, all flags, duplicate keys included);
+    2. the key loop creates a missing key only through `_require_all_new` (ALL nodes, any `rec`);
+    3. a mapping whose incoming children have `allow_new` off gets no new key, and the first
+       missing key is reported (ALL nodes of the dict family, any `rec`);
+    4. the command-line override `k1.k2.….kn=value` on a tag-free tree, paths through mappings;
+    5. whole trees (PARTIAL: mappings and scalars only, no nested tag below the `!notnew` root):
+       success creates no path, failure names a path the document writes and the config lacks.
+  Auxiliary definitions and proofs: AY/Lemmas/C08Req.lean (`c08_preorder`, `c08_offender`,
+  `c08_nodeAt`, `c08_keysNodupH`, `allNotNew`), AY/Lemmas/C08Cmd.lean (`nestDoc`, `c08_rawDoc`,
+  `getPlainAt`, `setPlainAt`, `c08_missingAt`), AY/Lemmas/C08Deep.lean (`c08_noListP`, `c08_nnDocList`,
+  `c08_docFlags`), AY/Lemmas/C08List.lean (`c08_getPlainAtL`, `c08_setPlainAtL`; group 5: the whole-tree statement for documents of mappings and scalars).
+-/
+import AY.Lemmas.C08Req
+import AY.Lemmas.C08Cmd
+import AY.Lemmas.C08Deep
+import AY.Lemmas.C08List
 namespace AY
-theorem C08_placeholder : foldUpd [] = .error .value := rfl
+
+/-! ### Concrete inputs used by the non-vacuity examples -/
+
+/-- inherited flags below a `!notnew` node / below a nested `!new` node -/
+def c08Off : Flags := { iNew := some false }
+def c08On : Flags := { iNew := some true }
+
+/-- `!notnew {a: {typo: 1}, n: !new {deep: 2}}` as the loader builds it: the root has
+    `allow_new=False` explicit, everything below inherits it, except below the nested `!new` -/
+def c08Doc : Node :=
+  .comp { new := some false } .dict
+    [(.str "a", .comp c08Off .dict [(.str "typo", .leaf c08Off (.scalar (.int 1)))]),
+     (.str "n", .comp { new := some true, iNew := some false } .dict
+        [(.str "deep", .leaf c08On (.scalar (.int 2)))])]
+
+/-- a mapping with a duplicated sibling key (possible for nodes built from Python) -/
+def c08Dup : Node :=
+  .comp {} .dict [(.str "x", .leaf {} (.scalar (.int 1))), (.str "x", .leaf c08Off (.scalar (.int 2)))]
+
+/-- the tag-free base config `{a: {b: 5, c: [5]}, z: 0}` -/
+def c08Base : Node :=
+  .comp {} .dict
+    [(.str "a", .comp {} .dict
+        [(.str "b", .leaf {} (.scalar (.int 5))),
+         (.str "c", .comp {} .list [(.int 0, .leaf { iDel := some true } (.scalar (.int 5)))])]),
+     (.str "z", .leaf {} (.scalar (.int 0)))]
+
+def c08Env : Env := { src := some "<Commandline argument #1>" }
+
+/-! ### 1. `_require_all_new` -/
+
+/- "succeeds only if every path it writes already exists … otherwise MergeError naming a missing
+   path (a nested !new re-allows creation below it)": the check the merge applies to content that
+   would be created, `_require_all_new(path, exceptions)`, returns the path of the FIRST node in
+   DFS pre-order (`c08_preorder` lists every node with its absolute path, all children of every
+   container, duplicated sibling keys included) whose inherited `allow_new` is off and whose path
+   is not in `exceptions` — `none` when there is no such node.  For ALL nodes and flags. -/
+theorem C08_reqNew_first_offender_eq (exc : List Path) (p : Path) (n : Node) :
+    reqNew exc p n = ((c08_preorder p n).find? (c08_offender exc)).map (·.1) :=
+  c08_reqNew_eq_find exc p n
+
+example : (c08_preorder [] c08Doc).map (·.1) =
+    [[], [.str "a"], [.str "a", .str "typo"], [.str "n"], [.str "n", .str "deep"]] := rfl
+-- the root of a `!notnew` document allows new itself (only the inherited flag is read) …
+example : reqNew [] [] c08Doc = some [.str "a"] := by decide
+-- … the nested `!new` mapping is itself still an offender, its content is not
+example : reqNew [[.str "a"], [.str "a", .str "typo"]] [] c08Doc = some [.str "n"] := by decide
+example : reqNew [[.str "a"], [.str "a", .str "typo"], [.str "n"]] [] c08Doc = none := by decide
+
+/- Soundness and completeness of the check ("every path it writes …"): `_require_all_new` passes
+   iff EVERY node `m` occurring at some relative path `q` of the inserted subtree (`c08_nodeAt`:
+   occurrence through any child, also the later of duplicated keys) allows new or has its path
+   `p ++ q` excepted. No hypothesis on the tree. -/
+theorem C08_reqNew_sound (exc : List Path) (p : Path) (n : Node) :
+    reqNew exc p n = none ↔
+      ∀ q m, c08_nodeAt n q m → eNew m.flags = true ∨ (p ++ q) ∈ exc :=
+  c08_reqNew_none_iff exc p n
+
+example : c08_nodeAt c08Doc [.str "n", .str "deep"] (.leaf c08On (.scalar (.int 2))) := by
+  unfold c08Doc
+  exact .child (c := .comp { new := some true, iNew := some false } .dict
+    [(.str "deep", .leaf c08On (.scalar (.int 2)))]) (by simp) (.child (by simp) (.root _))
+example : reqNew [[.str "a"], [.str "a", .str "typo"], [.str "n"]] [] c08Doc = none := by decide
+
+/- The same with `get_node` (`getNode`: the model of `root.ayns.get_node(path)`, which sees only the
+   first of duplicated sibling keys) for trees without duplicated sibling keys anywhere
+   (`c08_keysNodupH`; every tree the YAML loader builds from a mapping document is such). -/
+theorem C08_reqNew_sound_getNode (exc : List Path) (p : Path) (n : Node)
+    (hn : c08_keysNodupH n = true) :
+    reqNew exc p n = none ↔
+      ∀ q m, getNode n q = some m → eNew m.flags = true ∨ (p ++ q) ∈ exc := by
+  rw [C08_reqNew_sound]
+  constructor
+  · intro h q m hg; exact h q m (c08_nodeAt_of_getNode q n m hg)
+  · intro h q m hq; exact h q m (c08_getNode_of_nodeAt hq hn)
+
+example : c08_keysNodupH c08Doc = true := by decide
+-- why the hypothesis is needed: `get_node` does not see the second `x`, `_require_all_new` does
+example : c08_keysNodupH c08Dup = false ∧ reqNew [] [] c08Dup = some [.str "x"] ∧
+    (getNode c08Dup [.str "x"]).map (fun m => eNew m.flags) = some true := by decide
+
+/- "otherwise MergeError naming a missing path": when the check fails with path `r`, then `r` is
+   the absolute path `p ++ q` of a node `m` of the subtree whose `allow_new` is off and which is
+   not excepted, and it is the FIRST such node: the pre-order listing splits as
+   `pre ++ (r, m) :: post` with every node of `pre` allowing new or excepted. -/
+theorem C08_reqNew_first_offender (exc : List Path) (p : Path) (n : Node) (r : Path)
+    (h : reqNew exc p n = some r) :
+    ∃ (pre post : List (Path × Node)) (q : Path) (m : Node),
+      c08_preorder p n = pre ++ (r, m) :: post ∧ r = p ++ q ∧ c08_nodeAt n q m ∧
+      eNew m.flags = false ∧ r ∉ exc ∧
+      ∀ x ∈ pre, eNew x.2.flags = true ∨ x.1 ∈ exc :=
+  c08_reqNew_some exc p n r h
+
+example : reqNew [[.str "k", .str "a"]] [.str "k"] c08Doc = some [.str "k", .str "a", .str "typo"] := by decide
+
+/-! ### 2. Creating a key -/
+
+/- "Merging content … succeeds only if every path it writes already exists": in the key loop of
+   `ComposedNode.on_merge_impl` (`mergeStep`, for ALL containers, flags and any recursive merge
+   `rec`), when `self` has no child `k` the value is adopted as a new child only if
+   `_require_all_new` passes on it; otherwise the step fails with the MergeError naming the first
+   offending path below `k`. -/
+theorem C08_new_key_needs_allow_new (rec : Node → Node → Except Err (Node × Bool)) (sf : Flags)
+    (sk : CompKind) (acc : List (Key × Node)) (k : Key) (value : Node)
+    (h : getChild sk k acc = none) :
+    mergeStep rec sf sk acc (k, value) =
+      match reqNew [] [] value with
+      | some p => .error (.notnew (k :: p))
+      | none => setChild sf sk k value acc :=
+  c08_mergeStep_absent rec sf sk acc k value h
+
+example : getChild .dict (.str "n") c08Base.children = none := by decide
+example : mergeStep (mergeF 3) {} .dict c08Base.children (.str "n", .leaf c08Off (.scalar .null)) =
+    .error (.notnew [.str "n"]) := rfl
+
+/- Both directions for the dict family: a missing key is created (and then holds the adopted
+   value, every other key untouched by `aset`) iff every node of the inserted subtree allows new. -/
+theorem C08_new_key_created_iff (rec : Node → Node → Except Err (Node × Bool)) (sf : Flags)
+    (sk : CompKind) (hsk : sk.isDictFam = true) (acc : List (Key × Node)) (k : Key) (value : Node)
+    (h : getChild sk k acc = none) :
+    ((∃ acc', mergeStep rec sf sk acc (k, value) = .ok acc') ↔
+      ∀ q m, c08_nodeAt value q m → eNew m.flags = true) ∧
+    (∀ acc', mergeStep rec sf sk acc (k, value) = .ok acc' → acc' = aset k (adopt sf sk value) acc) := by
+  rw [C08_new_key_needs_allow_new rec sf sk acc k value h]
+  have hs := C08_reqNew_sound [] [] value
+  simp only [List.not_mem_nil, or_false] at hs
+  cases hr : reqNew [] [] value with
+  | some p =>
+    have : ¬ ∀ q m, c08_nodeAt value q m → eNew m.flags = true := fun hh => by
+      have := hs.2 hh; rw [hr] at this; cases this
+    simp [this]
+  | none =>
+    have := hs.1 hr
+    simp only [setChild, hsk, if_true]
+    refine ⟨⟨fun _ => this, fun _ => ⟨_, rfl⟩⟩, ?_⟩
+    intro acc' e; injection e with e; exact e.symm
+
+example : (∃ acc', mergeStep (mergeF 3) {} .dict c08Base.children
+    (.str "n", .comp c08On .dict [(.str "deep", .leaf c08On (.scalar (.int 2)))]) = .ok acc') :=
+  ⟨_, rfl⟩
+
+/-! ### 3. A mapping below `!notnew` gets no new key -/
+
+/- "so that afterwards no path exists that did not exist before": for a container of the dict
+   family and incoming children `ocs` in whose subtrees every node has `allow_new` off
+   (`allNotNewList`: content below `!notnew` without nested `!new`), a successful key loop leaves
+   no key that was not there before — whatever the recursive merge `rec` does, whatever the flags
+   of `self` (keys may disappear through `!del`, never appear). -/
+theorem C08_notnew_dict_no_new_key (rec : Node → Node → Except Err (Node × Bool)) (sf : Flags)
+    (sk : CompKind) (hsk : sk.isDictFam = true) (scs ocs scs' : List (Key × Node))
+    (hn : allNotNewList ocs = true) (h : mergeLoop rec sf sk scs ocs = .ok scs') :
+    ∀ k, k ∈ akeys scs' → k ∈ akeys scs :=
+  c08_mergeLoop_no_new_key rec hsk ocs scs scs' (c08_allNotNewList_mem ocs hn) h
+
+/-- `{a: {b: 6}, z: !del 1}` below `!notnew` -/
+def c08Ocs : List (Key × Node) :=
+  [(.str "a", .comp c08Off .dict [(.str "b", .leaf c08Off (.scalar (.int 6)))]),
+   (.str "z", .leaf { del := some true, iNew := some false } (.scalar (.int 1)))]
+
+example : allNotNewList c08Ocs = true := by decide
+example : ((mergeLoop (mergeF 3) {} .dict c08Base.children c08Ocs).map akeys).toOption =
+    some [.str "a", .str "z"] := by decide
+
+/- Only the top nodes of the incoming children matter for the keys of this level (their subtrees
+   matter one level down, through `rec`). -/
+theorem C08_notnew_dict_no_new_key_top (rec : Node → Node → Except Err (Node × Bool)) (sf : Flags)
+    (sk : CompKind) (hsk : sk.isDictFam = true) (scs ocs scs' : List (Key × Node))
+    (hn : ∀ kv ∈ ocs, eNew kv.2.flags = false) (h : mergeLoop rec sf sk scs ocs = .ok scs') :
+    ∀ k, k ∈ akeys scs' → k ∈ akeys scs :=
+  c08_mergeLoop_no_new_key rec hsk ocs scs scs' hn h
+
+example : ∀ kv ∈ c08Ocs, eNew kv.2.flags = false := by
+  intro kv h; simp [c08Ocs] at h; rcases h with h | h <;> subst h <;> rfl
+
+/- "otherwise MergeError naming a missing path": when the loop reaches a key `k` that `self` does
+   not have and the incoming value has `allow_new` off, the merge fails naming exactly `[k]`. -/
+theorem C08_notnew_missing_key_error (rec : Node → Node → Except Err (Node × Bool)) (sf : Flags)
+    (sk : CompKind) (acc : List (Key × Node)) (k : Key) (v : Node) (rest : List (Key × Node))
+    (hg : getChild sk k acc = none) (hv : eNew v.flags = false) :
+    mergeLoop rec sf sk acc ((k, v) :: rest) = .error (.notnew [k]) :=
+  c08_mergeLoop_missing_key rec sf sk acc k v rest hg hv
+
+example : mergeLoop (mergeF 3) {} .dict c08Base.children
+    ((.str "typo", .leaf c08Off (.scalar .null)) :: c08Ocs) = .error (.notnew [.str "typo"]) := rfl
+
+/- General position: after any prefix `pre` of keys whose steps succeeded (leaving `acc1`), the
+   first key missing in the accumulated children is reported, whatever follows. -/
+theorem C08_notnew_first_missing_key_error (rec : Node → Node → Except Err (Node × Bool)) (sf : Flags)
+    (sk : CompKind) (scs pre acc1 : List (Key × Node)) (k : Key) (v : Node) (rest : List (Key × Node))
+    (hpre : mergeLoop rec sf sk scs pre = .ok acc1)
+    (hg : getChild sk k acc1 = none) (hv : eNew v.flags = false) :
+    mergeLoop rec sf sk scs (pre ++ (k, v) :: rest) = .error (.notnew [k]) := by
+  rw [c08_mergeLoop_append rec sf sk pre scs acc1 _ hpre]
+  exact c08_mergeLoop_missing_key rec sf sk acc1 k v rest hg hv
+
+example : mergeLoop (mergeF 3) {} .dict c08Base.children
+    (c08Ocs ++ (.str "typo", .leaf c08Off (.scalar .null)) :: c08Ocs) = .error (.notnew [.str "typo"]) := rfl
+
+/-! ### 4. Command-line overrides -/
+
+/- "A command-line override 'a.b.c=value'": `Config.process_cmdline` turns `k1.k2.….kn=value` into
+   the YAML text `!notnew { k1: { k2: … value }}`; its representation tree is `c08_rawDoc` and the
+   loader (`construct`, in any parse context `env`) builds from it exactly `nestDoc env path value`:
+   single-key mappings, the root with `allow_new=False` explicit, every node below with
+   `implicit_allow_new=False` inherited and no other flag. -/
+theorem C08_cmdline_doc_is_loaded (env : Env) (k : Key) (ks : List Key) (v : Scalar) :
+    construct env (c08_rawDoc (k :: ks) v) = .ok (nestDoc env (k :: ks) v) :=
+  c08_construct_rawDoc env v k ks
+
+example : construct c08Env (.map .plain { new := some false }
+      [(.str "a", .map .none {} [(.str "b", .scalar .none {} (.lit (.int 1)))])]) =
+    .ok (.comp { new := some false, src := some "<Commandline argument #1>" } .dict
+      [(.str "a", .comp { iNew := some false, src := some "<Commandline argument #1>" } .dict
+        [(.str "b", .leaf { iNew := some false, src := some "<Commandline argument #1>" } (.scalar (.int 1)))])]) := rfl
+example : nestDoc c08Env [.str "a", .str "b"] (.int 1) =
+    .comp { new := some false, src := some "<Commandline argument #1>" } .dict
+      [(.str "a", .comp { iNew := some false, src := some "<Commandline argument #1>" } .dict
+        [(.str "b", .leaf { iNew := some false, src := some "<Commandline argument #1>" } (.scalar (.int 1)))])] := rfl
+
+/- "sets exactly that path to the value and changes nothing else" (PARTIAL: paths through mappings
+   only, no list index; scalar value): for a tag-free tree `a` (`plainT`) in which the path
+   `k :: ks` exists through mappings (`getPlainAt (native a) (k :: ks) = some t`; the target `t` may
+   be a scalar, a mapping or a list), merging the override succeeds, the data of the result is the
+   data of `a` with exactly the value at that path replaced (`setPlainAt`: every mapping on the
+   way keeps its keys, their order and all other values), and the result is again a tag-free tree
+   (`plainT`), so that overrides can be chained. -/
+theorem C08_cmdline_sets_leaf_partial (env : Env) (a : Node) (k : Key) (ks : List Key) (v : Scalar)
+    (t : Plain) (ha : plainT a = true) (hg : getPlainAt (native a) (k :: ks) = some t) :
+    ∃ r, merge a (nestDoc env (k :: ks) v) = .ok r ∧ plainT r = true ∧
+      native r = setPlainAt (native a) (k :: ks) (.scalar v) := by
+  obtain ⟨r, h1, h2, h3⟩ := c08_override_ok env v ks k a (ks.length + 1) (c08_topFlags env) t ha
+    (c08_docFlags_top env) (by omega) hg
+  refine ⟨r, ?_, h2, h3⟩
+  have hd : (nestDoc env (k :: ks) v).depth = ks.length + 1 := by
+    simp [nestDoc, c08_nest_depth]
+  simp only [merge, hd]
+  simp only [nestDoc, h1]
+
+example : plainT c08Base = true := by decide
+example : getPlainAt (native c08Base) [.str "a", .str "b"] = some (.scalar (.int 5)) := rfl
+example : (merge c08Base (nestDoc c08Env [.str "a", .str "b"] (.int 1))).map native =
+    .ok (.dict [(.str "a", .dict [(.str "b", .scalar (.int 1)), (.str "c", .list [.scalar (.int 5)])]),
+                (.str "z", .scalar (.int 0))]) := rfl
+-- a container target is replaced by the scalar as well
+example : (merge c08Base (nestDoc c08Env [.str "a"] (.int 1))).map native =
+    .ok (.dict [(.str "a", .scalar (.int 1)), (.str "z", .scalar (.int 0))]) := rfl
+
+-- list indices (outside the theorem, which covers paths through mappings): on the model an existing
+-- index `a.c[0]=7` / `a.c[-1]=7` sets that element, an out-of-range index or a name applied to a list
+-- is a MergeError WITHOUT a path (`Err.merge`, raised by the index validation of ConfigList), and a
+-- component below a scalar list element is reported like below any scalar
+example : (merge c08Base (nestDoc c08Env [.str "a", .str "c", .int 0] (.int 7))).map native =
+    .ok (.dict [(.str "a", .dict [(.str "b", .scalar (.int 5)), (.str "c", .list [.scalar (.int 7)])]),
+                (.str "z", .scalar (.int 0))]) := rfl
+example : (merge c08Base (nestDoc c08Env [.str "a", .str "c", .int (-1)] (.int 7))).map native =
+    (merge c08Base (nestDoc c08Env [.str "a", .str "c", .int 0] (.int 7))).map native := rfl
+example : merge c08Base (nestDoc c08Env [.str "a", .str "c", .int 1] (.int 7)) = .error .merge := rfl
+example : merge c08Base (nestDoc c08Env [.str "a", .str "c", .str "x"] (.int 7)) = .error .merge := rfl
+example : merge c08Base (nestDoc c08Env [.str "a", .str "c", .int 0, .str "y"] (.int 7)) =
+    .error (.notnew [.str "a", .str "c", .int 0, .str "y"]) := rfl
+
+/- The same for every fuel above the depth of the override (the form used when the override is one
+   stage of a longer build), with the additional fact that the root object is mutated in place. -/
+theorem C08_cmdline_sets_leaf_fuel (env : Env) (a : Node) (k : Key) (ks : List Key) (v : Scalar)
+    (t : Plain) (n : Nat) (ha : plainT a = true) (hn : ks.length < n)
+    (hg : getPlainAt (native a) (k :: ks) = some t) :
+    ∃ r, mergeF (n + 1) a (nestDoc env (k :: ks) v) = .ok (r, true) ∧ plainT r = true ∧
+      native r = setPlainAt (native a) (k :: ks) (.scalar v) :=
+  c08_override_ok env v ks k a n (c08_topFlags env) t ha (c08_docFlags_top env) hn hg
+
+example := C08_cmdline_sets_leaf_fuel c08Env c08Base (.str "a") [.str "b"] (.int 1) _ 7 (by decide) (by decide) rfl
+
+/- "and changes nothing else", read back through paths: after `setPlainAt` the addressed path holds
+   the new value, every prefix of it still exists, and every path that branches off it (common part
+   `c`, then a different key) holds what it held before (or is still absent). -/
+theorem C08_cmdline_frame (t x y : Plain) (p : List Key) (h : getPlainAt t p = some y) :
+    getPlainAt (setPlainAt t p x) p = some x ∧
+    (∀ q r, p = q ++ r → (getPlainAt (setPlainAt t p x) q).isSome = true) ∧
+    (∀ c k1 k2 q' p', p = c ++ k2 :: p' → k2 ≠ k1 →
+      getPlainAt (setPlainAt t p x) (c ++ k1 :: q') = getPlainAt t (c ++ k1 :: q')) := by
+  refine ⟨c08_getPlainAt_set_same p t x y h, c08_getPlainAt_set_isSome p t x y h, ?_⟩
+  intro c k1 k2 q' p' e hne
+  subst e
+  exact c08_getPlainAt_set_other c k1 k2 q' p' t x hne
+
+example : getPlainAt (setPlainAt (native c08Base) [.str "a", .str "b"] (.scalar (.int 1)))
+    [.str "a", .str "c"] = some (.list [.scalar (.int 5)]) := rfl
+
+/- "a mistyped path is an error": if the override path is `pre ++ k :: post`, the part `pre` exists
+   in the (mapping-rooted, tag-free) tree through mappings and ends at a node `t` that cannot be
+   entered with `k` (`c08_missingAt`: a mapping without key `k`, or a scalar), the merge fails with
+   the MergeError naming `pre ++ [k]` — the path up to and including the first missing component —
+   and nothing is created. -/
+theorem C08_cmdline_mistyped_path_error (env : Env) (a : Node) (pre : List Key) (k : Key)
+    (post : List Key) (v : Scalar) (t : Plain) (ha : plainT a = true)
+    (hroot : ∃ items, native a = .dict items)
+    (hg : getPlainAt (native a) pre = some t) (hm : c08_missingAt t k = true) :
+    merge a (nestDoc env (pre ++ k :: post) v) = .error (.notnew (pre ++ [k])) := by
+  have h := c08_override_missing env v pre k post a (pre ++ k :: post).length (c08_topFlags env) t ha
+    (c08_docFlags_top env) (Nat.le_refl _) hroot hg hm
+  have hd : (nestDoc env (pre ++ k :: post) v).depth = (pre ++ k :: post).length := by
+    simp [nestDoc, c08_nest_depth]
+  simp only [merge, hd]
+  simp only [nestDoc, h]
+
+example : getPlainAt (native c08Base) [.str "a"] =
+      some (.dict [(.str "b", .scalar (.int 5)), (.str "c", .list [.scalar (.int 5)])]) ∧
+    c08_missingAt (.dict [(.str "b", .scalar (.int 5)), (.str "c", .list [.scalar (.int 5)])]) (.str "typo") = true :=
+  ⟨rfl, rfl⟩
+example : merge c08Base (nestDoc c08Env [.str "a", .str "typo", .str "x"] (.int 1)) =
+    .error (.notnew [.str "a", .str "typo"]) := rfl
+-- continuing below a scalar: the component after the scalar is the one reported
+example : merge c08Base (nestDoc c08Env [.str "z", .str "b"] (.int 1)) =
+    .error (.notnew [.str "z", .str "b"]) := rfl
+
+/- The same with the position of the first missing component: the reported path is
+   `path.take (i + 1)`. -/
+theorem C08_cmdline_mistyped_path_error_take (env : Env) (a : Node) (path : List Key) (i : Nat)
+    (hi : i < path.length) (v : Scalar) (t : Plain) (ha : plainT a = true)
+    (hroot : ∃ items, native a = .dict items)
+    (hg : getPlainAt (native a) (path.take i) = some t) (hm : c08_missingAt t path[i] = true) :
+    merge a (nestDoc env path v) = .error (.notnew (path.take (i + 1))) := by
+  have e1 : path = path.take i ++ path[i] :: path.drop (i + 1) := by
+    rw [List.getElem_cons_drop]; exact (List.take_append_drop i path).symm
+  have e2 : path.take (i + 1) = path.take i ++ [path[i]] := by
+    rw [List.take_succ_eq_append_getElem hi]
+  have := C08_cmdline_mistyped_path_error env a (path.take i) path[i] (path.drop (i + 1)) v t ha hroot hg hm
+  rw [← e1] at this
+  rw [this, e2]
+
+example := C08_cmdline_mistyped_path_error_take c08Env c08Base [.str "a", .str "typo", .str "x"] 1 (by decide)
+  (.int 1) _ (by decide) ⟨_, rfl⟩ rfl rfl
+
+/- "A command-line override 'a.b[i].c=value' sets exactly that path to the value and changes nothing
+   else" — with list indices (`process_cmdline` turns `b[i]` into the nested mapping `b: { i: … }`):
+   `c08_getPlainAtL` / `c08_setPlainAtL` follow mapping keys and existing list indices (`listIndex`:
+   `-len ≤ i < len`, negative ones counted from the end; `setAt` replaces that element and keeps
+   the length). For a tag-free tree `a` in which the path exists, merging the override succeeds,
+   the data of the result is the data of `a` with exactly the value at that path replaced, and the
+   result is again a tag-free tree. (Scalar value; the target may be any node.) -/
+theorem C08_cmdline_sets_path_lists_partial (env : Env) (a : Node) (k : Key) (ks : List Key)
+    (v : Scalar) (t : Plain) (ha : plainT a = true)
+    (hg : c08_getPlainAtL (native a) (k :: ks) = some t) :
+    ∃ r, merge a (nestDoc env (k :: ks) v) = .ok r ∧ plainT r = true ∧
+      native r = c08_setPlainAtL (native a) (k :: ks) (.scalar v) := by
+  obtain ⟨r, h1, h2, h3⟩ := c08_override_ok_L env v ks k a (ks.length + 1) (c08_topFlags env) t ha
+    (c08_docFlags_top env) (by omega) hg
+  refine ⟨r, ?_, h2, h3⟩
+  have hd : (nestDoc env (k :: ks) v).depth = ks.length + 1 := by
+    simp [nestDoc, c08_nest_depth]
+  simp only [merge, hd]
+  simp only [nestDoc, h1]
+
+example : c08_getPlainAtL (native c08Base) [.str "a", .str "c", .int (-1)] = some (.scalar (.int 5)) := rfl
+example : c08_setPlainAtL (native c08Base) [.str "a", .str "c", .int (-1)] (.scalar (.int 7)) =
+    .dict [(.str "a", .dict [(.str "b", .scalar (.int 5)), (.str "c", .list [.scalar (.int 7)])]),
+           (.str "z", .scalar (.int 0))] := rfl
+example := C08_cmdline_sets_path_lists_partial c08Env c08Base (.str "a") [.str "c", .int (-1)] (.int 7) _
+  (by decide) rfl
+
+/- "a mistyped path is an error" at a list: if the part `pre` of the override path exists (through
+   mappings and list indices) and ends at a list for which the next component `k` is not an
+   existing index (out of range, or a name), the merge fails — on the model with the plain
+   MergeError `Err.merge` of ConfigList's index validation, which carries NO path (unlike a missing
+   mapping key, which is named: `C08_cmdline_mistyped_path_error`). Nothing is created. -/
+theorem C08_cmdline_bad_list_index_error (env : Env) (a : Node) (pre : List Key) (k : Key)
+    (post : List Key) (v : Scalar) (xs : List Plain) (ha : plainT a = true)
+    (hg : c08_getPlainAtL (native a) pre = some (.list xs)) (hk : listIndex xs.length k = none) :
+    merge a (nestDoc env (pre ++ k :: post) v) = .error .merge := by
+  have h := c08_override_bad_index env v pre k post a (pre ++ k :: post).length (c08_topFlags env) xs ha
+    (c08_docFlags_top env) (Nat.le_refl _) hg hk
+  have hd : (nestDoc env (pre ++ k :: post) v).depth = (pre ++ k :: post).length := by
+    simp [nestDoc, c08_nest_depth]
+  simp only [merge, hd]
+  simp only [nestDoc, h]
+
+example : c08_getPlainAtL (native c08Base) [.str "a", .str "c"] = some (.list [.scalar (.int 5)]) ∧
+    listIndex [Plain.scalar (.int 5)].length (.int 1) = none ∧
+    listIndex [Plain.scalar (.int 5)].length (.str "x") = none := ⟨rfl, rfl, rfl⟩
+example : merge c08Base (nestDoc c08Env [.str "a", .str "c", .int 1, .str "y"] (.int 7)) = .error .merge :=
+  C08_cmdline_bad_list_index_error c08Env c08Base [.str "a", .str "c"] (.int 1) [.str "y"] (.int 7) _
+    (by decide) rfl rfl
+
+/-! ### 5. Whole trees (mappings and scalars) -/
+
+/-- the tag-free base config `{a: {b: 5, d: {e: 1}}, z: 0}` (no lists) -/
+def c08Base2 : Node :=
+  .comp {} .dict
+    [(.str "a", .comp {} .dict
+        [(.str "b", .leaf {} (.scalar (.int 5))),
+         (.str "d", .comp {} .dict [(.str "e", .leaf {} (.scalar (.int 1)))])]),
+     (.str "z", .leaf {} (.scalar (.int 0)))]
+
+/-- children of `!notnew {a: {b: 6, d: 7}, z: {}}` -/
+def c08Ocs2 : List (Key × Node) :=
+  [(.str "a", .comp c08Off .dict
+      [(.str "b", .leaf c08Off (.scalar (.int 6))), (.str "d", .leaf c08Off (.scalar (.int 7)))]),
+   (.str "z", .comp c08Off .dict [])]
+
+/-- children of `!notnew {a: {b: 6, typo: {x: 1}}}` -/
+def c08Ocs3 : List (Key × Node) :=
+  [(.str "a", .comp c08Off .dict
+      [(.str "b", .leaf c08Off (.scalar (.int 6))),
+       (.str "typo", .comp c08Off .dict [(.str "x", .leaf c08Off (.scalar (.int 1)))])])]
+
+/- "Merging content below a !notnew node succeeds only if every path it writes already exists in
+   the config built so far, so that afterwards no path exists that did not exist before; otherwise
+   MergeError naming a missing path" — whole-tree form, PARTIAL: the config `a` is a tag-free tree
+   of mappings and scalars (`plainT`, no list in its data), the newer document `b` is a mapping
+   whose root carries no priority / delete / safe flag or metadata (`c08_docFlags`, e.g. the
+   `!notnew` root) and below which every node is a mapping or scalar with
+   `implicit_allow_new=False` and no other flag (`c08_nnDocList`: no nested `!new` or other tag).
+   Then `merge a b`
+   * either succeeds, the result is again such a tag-free mapping tree (so the statement can be
+     chained), and every path of the result is a path of `a`;
+   * or fails with the MergeError `notnew p`, where — provided `b` has no duplicated sibling keys —
+     `p` is a path that `b` writes (a node of `b` sits at `p`) and that does not exist in `a`.
+   No other error is possible. -/
+theorem C08_notnew_no_new_path_partial (sf : Flags) (scs : List (Key × Node)) (of : Flags)
+    (ocs : List (Key × Node)) (ha : plainT (.comp sf .dict scs) = true)
+    (hl : c08_noListP (native (.comp sf .dict scs)) = true) (ho : c08_docFlags of = true)
+    (hocs : c08_nnDocList ocs = true) :
+    match merge (.comp sf .dict scs) (.comp of .dict ocs) with
+    | .ok r => plainT r = true ∧ c08_noListP (native r) = true ∧ (∃ items, native r = .dict items) ∧
+        ∀ q, (getPlainAt (native r) q).isSome = true →
+          (getPlainAt (native (.comp sf .dict scs)) q).isSome = true
+    | .error e => ∃ p, e = .notnew p ∧
+        (c08_keysNodupH (.comp of .dict ocs) = true →
+          getPlainAt (native (.comp sf .dict scs)) p = none ∧ ∃ m, c08_nodeAt (.comp of .dict ocs) p m) := by
+  have h := c08_deep_main ((Node.comp of .dict ocs).depth + 1) sf scs of ocs ha hl ho hocs (Nat.lt_succ_self _)
+  simp only [merge]
+  cases hm : mergeF ((Node.comp of .dict ocs).depth + 1) (.comp sf .dict scs) (.comp of .dict ocs) with
+  | error e => rw [hm] at h; exact h
+  | ok res =>
+    obtain ⟨r, s⟩ := res
+    rw [hm] at h
+    exact ⟨h.2.1, h.2.2.1, h.2.2.2.1, h.2.2.2.2⟩
+
+example : plainT c08Base2 = true ∧ c08_noListP (native c08Base2) = true := ⟨by decide, rfl⟩
+example : c08_docFlags { new := some false } = true ∧ c08_nnDocList c08Ocs2 = true ∧
+    c08_nnDocList c08Ocs3 = true := by decide
+-- success: values change (a mapping becomes a scalar, a scalar an empty mapping), no path appears
+example : (merge c08Base2 (.comp { new := some false } .dict c08Ocs2)).map native =
+    .ok (.dict [(.str "a", .dict [(.str "b", .scalar (.int 6)), (.str "d", .scalar (.int 7))]),
+                (.str "z", .dict [])]) := rfl
+-- failure: the first written path that is missing is named
+example : merge c08Base2 (.comp { new := some false } .dict c08Ocs3) =
+    .error (.notnew [.str "a", .str "typo"]) := rfl
+example : c08_keysNodupH (.comp { new := some false } .dict c08Ocs3) = true := by decide
+-- why "no duplicated sibling keys" is needed for the error clause: `!notnew {a: 5, a: {b: 2}}`
+-- (only constructible from Python, never from YAML text) fails naming `a.b`, which exists in the
+-- config before the merge — the first `a: 5` has already replaced the mapping
+example : merge c08Base2 (.comp { new := some false } .dict
+      [(.str "a", .leaf c08Off (.scalar (.int 5))),
+       (.str "a", .comp c08Off .dict [(.str "b", .leaf c08Off (.scalar (.int 2)))])]) =
+    .error (.notnew [.str "a", .str "b"]) := rfl
+
 end AY
